@@ -1,0 +1,34 @@
+//go:build verif
+
+package cache
+
+import (
+	"fmt"
+	"sort"
+	"strings"
+)
+
+// VerifDump returns a canonical text dump of the in-memory cache (verif build tag only).
+func (c *Cache) VerifDump() string {
+	if c == nil {
+		return "<nil>"
+	}
+	var b strings.Builder
+	if c.msg != nil {
+		for _, m := range *c.msg {
+			fmt.Fprintf(&b, "msg feeder=%d validator=%s sources=%d\n", m.FeederID, m.Validator, len(m.PSources))
+		}
+	}
+	if c.validators != nil {
+		vs := make([]string, 0)
+		for v, p := range c.validators.validators {
+			vs = append(vs, fmt.Sprintf("%s=%s", v, p))
+		}
+		sort.Strings(vs)
+		fmt.Fprintf(&b, "validators update=%v [%s]\n", c.validators.update, strings.Join(vs, ","))
+	}
+	if c.params != nil && c.params.params != nil {
+		fmt.Fprintf(&b, "params update=%v feeders=%d tokens=%d\n", c.params.update, len(c.params.params.TokenFeeders), len(c.params.params.Tokens))
+	}
+	return b.String()
+}
